@@ -250,6 +250,11 @@ def gen_case(rng, kind):
         c["valid"], c["reject"] = False, "no-integer-dtype-holds-the-values"
     c["to"] = to
     c["mode"] = "dtype" if (to["dtype"] and not to["mapping"]) else ("mapping" if to["mapping"] else "default")
+    if c["valid"] and (c["opts"]["counts"] is not None or c["opts"]["mapping"] is not None) and rng.random() < 0.35:
+        # relations between calls: one or two EARLIER from_array calls on the same array that were handed the very same
+        # counts / mapping dict objects, with another common value (omitted = None, a value of the data, an absent value)
+        cands = [None] + [v for v in sorted(set(vals)) if v != c["opts"]["common"]][:6] + ([77777] if c["opts"]["mapping"] is None else [])
+        c["prior"] = [rng.choice(cands) for _ in range(rng.choice([1, 1, 2]))]
     return c
 
 
@@ -400,7 +405,7 @@ def signature(r):
 
 
 def public_case(c):
-    return {k: c[k] for k in ("shape", "data", "opts", "to", "in_dtype", "kind", "layout") if k in c} | ({"as_list": True} if c.get("as_list") else {})
+    return {k: c[k] for k in ("shape", "data", "opts", "to", "in_dtype", "kind", "layout", "prior") if k in c} | ({"as_list": True} if c.get("as_list") else {})
 
 
 def how_to(c):
@@ -418,6 +423,9 @@ def how_to(c):
     if t["dtype"] is not None:
         tk.append("dtype=%r" % t["dtype"])
     lay = c.get("layout")
+    if c.get("prior"):
+        kw.insert(0, "<after %d earlier from_array call(s) on `a` that were given the SAME counts / mapping dict objects, with common = %s>" % (
+            len(c["prior"]), ", ".join("omitted" if p is None else repr(p) for p in c["prior"])))
     return "a = numpy.array(data, dtype=%r).reshape(shape)%s; iindex.from_array(a, %s).to_array(%s) must equal a mapped through the mapping(s)" % (
         c.get("in_dtype", "int64"), ("  # handed over in the form %r: harness/impl_c01.py with_layout" % lay) if lay else "", ", ".join(kw), ", ".join(tk))
 
